@@ -152,6 +152,18 @@ func checkC05(c *core.Ctx, r *core.Report) {
 	c05RankParser(c, r)
 	c05AllKeys(c, r)
 	c05LimitConversion(c, r)
+	{
+		// (5 of C06, shared) head's row limit is measured against the cumulative count
+		ppkg := c.Pkg(pkgProcessor)
+		c06RowLimit(c, r, func(named *types.Named, name string) *ssa.Function {
+			o, _, _ := types.LookupFieldOrMethod(types.NewPointer(named), true, ppkg.Types, name)
+			fo, ok := o.(*types.Func)
+			if !ok {
+				return nil
+			}
+			return c.Prog.FuncValue(fo)
+		})
+	}
 
 	// ---------------------------------------------------------------- (2)
 	cv := c.Obj(pkgProcessor, "compareValues")
